@@ -314,6 +314,13 @@ Section FlattenLinks.
     - exact fl_link_after_target.
   Qed.
 
+  (* every layer is self-contained as far as hard links go *)
+  Lemma fl_links_inside : Forall LayerLinksInside layers.
+  Proof.
+    apply Forall_forall. intros l Hin. destruct (In_nth layers l [] Hin) as [i [_ Hi]]. subst l.
+    intros O x rest E Hk. exact (fl_link_after_target i O x rest E Hk).
+  Qed.
+
   Theorem split_flatten_links :
     (forall e, In e es -> is_dir e = true -> own (e_path e) = None) ->
     exists a b, apply_layers layers = Ok a /\ extract es = Ok b /\ canon_forest a = canon_forest b.
@@ -342,3 +349,20 @@ Theorem split_flatten_links_spec : forall gs own es layers,
   split_layers gs own es = Ok layers ->
   exists a b, apply_layers layers = Ok a /\ extract es = Ok b /\ canon_forest a = canon_forest b.
 Proof. intros gs own es layers W Hl Hd H. apply wseq_WalkSeq in W. exact (split_flatten_links gs own es layers W H Hl Hd). Qed.
+
+Theorem split_links_inside_spec : forall gs own es layers,
+  WalkSeq es -> links_ok own es -> split_layers gs own es = Ok layers -> Forall LayerLinksInside layers.
+Proof. intros gs own es layers W Hl H. apply wseq_WalkSeq in W. exact (fl_links_inside gs own es layers W H Hl). Qed.
+
+(* the condition on owners is necessary for this clause even when the layers do
+   apply in order: a link owned by a package of a LATER layer than its target's *)
+Lemma link_in_later_layer :
+  let es := [w_reg ["b"] 8; w_lnk ["c"] "b"] in
+  let own := w_own2 ["b"] ["c"] in
+  exists layers a, split_layers [["a"]; ["b"]] own es = Ok layers /\
+    apply_layers layers = Ok a /\ extract es = Ok a /\ ~ Forall LayerLinksInside layers.
+Proof.
+  vm_compute. do 2 eexists. repeat split; try reflexivity. intros F.
+  inversion F as [| ? ? _ F1]; subst. inversion F1 as [| ? ? L1 _]; subst.
+  destruct (L1 [] _ [] eq_refl eq_refl) as [t [[] _]].
+Qed.
